@@ -600,7 +600,7 @@ Definition chfl_init (c : cfg) (r : relay) : Z := if c_lateflags c then 0 else r
 
 Theorem restore_all_w e c s :
   wf_cfg c -> NoDup (map r_gpio (c_relays c)) -> NoDup (map r_chan (c_relays c)) ->
-  TrO s -> 0 <= cnt0 s -> tb s <= now s ->
+  TrO s -> 0 <= cnt0 s -> tb s <= now s -> 0 <= upc s -> upc s * 4294967296 <= cnt0 s + (now s - tb s) ->
   let s' := boot e c s in
   NWw s' ->
   forall a r, In (a, r) (enum 0 (c_relays c)) -> restoring r = true ->
@@ -614,15 +614,15 @@ Theorem restore_all_w e c s :
      v = 1 \/ (getz (time2 s) (r_chan r) = 0 /\ hasf (chfl_init c r) CHFLAG_COUNTDOWN = true) ->
      exists t0, now s <= t0 <= now s + (a + 1) * (9 * OP) /\ In (GArm t0 (r_chan r) T (1 - v)) (outs s')).
 Proof.
-  intros W NDg NDc TO C0 Ct s' N. pose proof (wf_len _ W) as Hlen. unfold s', boot, boot_l in *. clear s'.
-  remember (t_arm TUP UPTIME_POLL_MS true (set_upc 0 (set_upl 0 (set_seqc 0 (set_li 0 (set_tcd tmr0 (set_tsv tmr0 (set_tup tmr0 s)))))))) as s1 eqn:Es1.
+  intros W NDg NDc TO C0 Ct Cu CL s' N. pose proof (wf_len _ W) as Hlen. unfold s', boot, boot_l in *. clear s'.
+  remember (t_arm TUP UPTIME_POLL_MS true (set_upl 0 (set_seqc 0 (set_li 0 (set_tcd tmr0 (set_tsv tmr0 (set_tup tmr0 s))))))) as s1 eqn:Es1.
   remember (set_ram_relay (fl_relay s1) (set_ram_t2 (fl_t2 s1) s1)) as s2 eqn:Es2.
   remember (set_slots (repeat slot_free 8) (set_delay 0 s2)) as s3 eqn:Es3.
   remember (set_chfl (if c_lateflags c then map (fun _ => 0) (c_relays c) else map r_chfl (c_relays c)) s3) as s4 eqn:Es4.
   remember (set_obuf [] (set_regreq false (set_queue [] (set_conn false (set_reg false (set_gout 0 s4)))))) as s5 eqn:Es5.
   remember (fold_left (restore_relay false c) (enum 0 (c_relays c)) s5) as s6 eqn:Es6.
   assert (A5 : slots s5 = repeat slot_free 8 /\ delay s5 = 0 /\ tcd s5 = tmr0 /\ cnt0 s5 = cnt0 s /\ tb s5 = tb s /\ now s5 = now s /\
-               upc s5 = 0 /\ upl s5 = 0 /\ outs s5 = outs s /\ time2 s5 = time2 s).
+               upc s5 = upc s /\ upl s5 = 0 /\ outs s5 = outs s /\ time2 s5 = time2 s).
   { subst s5 s4 s3 s2 s1. cbn. repeat split; reflexivity. }
   assert (B5 : ram_relay s5 = fl_relay s /\ ram_t2 s5 = fl_t2 s /\
                chfl s5 = (if c_lateflags c then map (fun _ => 0) (c_relays c) else map r_chfl (c_relays c))).
@@ -677,7 +677,7 @@ End W.
 (* no wrap at all (WB = 0): the statement as before *)
 Theorem restore_all_thm e c s :
   wf_cfg c -> NoDup (map r_gpio (c_relays c)) -> NoDup (map r_chan (c_relays c)) ->
-  TrO s -> 0 <= cnt0 s -> tb s <= now s ->
+  TrO s -> 0 <= cnt0 s -> tb s <= now s -> 0 <= upc s -> upc s * 4294967296 <= cnt0 s + (now s - tb s) ->
   let s' := boot e c s in
   NW s' ->
   forall a r, In (a, r) (enum 0 (c_relays c)) -> restoring r = true ->
@@ -689,8 +689,8 @@ Theorem restore_all_thm e c s :
      v = 1 \/ (getz (time2 s) (r_chan r) = 0 /\ hasf (chfl_init c r) CHFLAG_COUNTDOWN = true) ->
      exists t0, now s <= t0 <= now s + (a + 1) * (9 * OP) /\ In (GArm t0 (r_chan r) T (1 - v)) (outs s')).
 Proof.
-  intros W NDg NDc TO C0 Ct s' N.
-  exact (@restore_all_w nowrap e c s W NDg NDc TO C0 Ct (NW_NWw _ N)).
+  intros W NDg NDc TO C0 Ct Cu CL s' N.
+  exact (@restore_all_w nowrap e c s W NDg NDc TO C0 Ct Cu CL (NW_NWw _ N)).
 Qed.
 
 (* ---------- the hypotheses are satisfiable, the conclusion is not vacuous ---------- *)
